@@ -1,5 +1,7 @@
 """Source programs for C15: one program (at least) per PR node kind / literal kind / statement kind, error
-programs for every stage, and a seeded generator of pipelines with random expressions."""
+programs for every stage, and a seeded generator of pipelines with random expressions; two structural families:
+relation literals over every literal kind, and computes that later transforms refer to."""
+import re
 
 COVER = [
     'prql version:"0.13" target:sql.sqlite\nfrom t | take 1',
@@ -90,6 +92,8 @@ NONFINITE = [
     'from t | derive {x = -1e400}',
     'from t | filter a > 1e999 | select {a}',
     'let big = 2e308\nfrom t | derive {y = big}',
+    'from t | filter a > 1e400',
+    'from [{a = 1, b = 1e400}] | select {b}',
 ]
 
 
@@ -117,8 +121,165 @@ def literal_edge_programs(rng, n):
         out.append("from [{a = %d, b = %d}] | select {b, a}" % (v, rng.randrange(2**53, 2**63)))
     return out
 
+# ---------------------------------------------------------------------------------------------------------------
+# literal kinds: every lr::Literal variant in every surface spelling the lexer accepts.  Used for relation-literal
+# cells (`from [{..}]`: the only place where RQ holds `lr::Literal`s outside an Expr) and for expression positions.
+LITERAL_KINDS = {
+    "null": ["null"],
+    "bool": ["true", "false"],
+    "int": ["0", "1", "-7", "42", "1_000", "0x1F", "0b101", "0o17", "9007199254740993", "9223372036854775807", "-9223372036854775807"],
+    "float": ["2.5", "-0.5", "1e3", "1.5e-7", "0.30000000000000004", "1e22", "5e-324", "1.7976931348623157e308", "100.0"],
+    "string": ['"x"', '""', "'sq \" dq'", '"a\\"b\\\\c\\n"', '"""tri " ple"""', '"2024-02-29"', '"2days"', '"null"', '"é 漢 \\u{1F600}"', '"@2020-01-01"'],
+    "raw": ['r"raw\\n"', "r'a\\b'", 'r"2024-02-29"', 'r""'],
+    "date": ["@2024-02-29", "@1970-01-01", "@2020-12-31"],
+    "time": ["@08:30:00", "@08:30", "@23:59:59.999", "@08:30:00.123456", "@10:00:00+02:00", "@10:00:00Z"],
+    "timestamp": ["@2024-02-29T12:30:00", "@2020-01-01T10:30:00Z", "@2020-01-01T10:30:00+01:00", "@2020-01-01T10:30:00.5", "@2020-01-01T10:30"],
+    "interval": ["2days", "1microseconds", "2milliseconds", "30seconds", "4minutes", "5hours", "6weeks", "7months", "8years", "0days"],
+}
+ALL_LITERALS = [l for k in sorted(LITERAL_KINDS) for l in LITERAL_KINDS[k]]
+
+
+def _cell(rng, kind=None):
+    kind = kind or rng.choice(sorted(LITERAL_KINDS))
+    return rng.choice(LITERAL_KINDS[kind])
+
+
+def relation_literal(rng, cols, nrows, kinds=None):
+    """`[{c = lit, ..}, ..]`: every row has the columns `cols`; `kinds` fixes the literal kind per column (a typed
+    table) or is None (any kind in any cell: nothing type-checks a relation literal)"""
+    rows = []
+    for _ in range(nrows):
+        rows.append("{" + ", ".join("%s = %s" % (c, _cell(rng, kinds[i] if kinds else None)) for i, c in enumerate(cols)) + "}")
+    return "[" + ", ".join(rows) + "]"
+
+
+_REL_TAILS = ["", " | select {b, a}", " | filter a != null", " | sort {-b} | take 2", " | derive {z = c} | select {z, a}",
+              " | group {a} (aggregate {n = count this})", " | join u (==a)", " | take 1 | select {c}"]
+
+
+def relation_literal_programs(rng, n):
+    """relation literals holding every literal kind, in every position a relation literal can take
+    (`from`, `let`, `join`, `append`, nested pipeline), with typed and untyped columns, one and several rows."""
+    out = []
+    kinds = sorted(LITERAL_KINDS)
+    # directed: each spelling of each kind in a cell once (one program per kind, one column per spelling)
+    for k in kinds:
+        out.append("from [{id = 1, %s}] | select {id, c0}" % ", ".join("c%d = %s" % (i, l) for i, l in enumerate(LITERAL_KINDS[k])))
+    # one row with one cell of every kind; two rows (UNION ALL) with the kinds rotated
+    out.append("from [{%s}]" % ", ".join("%s_ = %s" % (k, LITERAL_KINDS[k][0]) for k in kinds))
+    out.append("from [{%s}, {%s}]" % (", ".join("c%d = %s" % (i, LITERAL_KINDS[k][-1]) for i, k in enumerate(kinds)),
+                                      ", ".join("c%d = %s" % (i, LITERAL_KINDS[k][0]) for i, k in enumerate(kinds[1:] + kinds[:1]))))
+    for k in kinds:
+        lit = LITERAL_KINDS[k][0]
+        pos = rng.randrange(4)
+        if pos == 0:
+            out.append("let r = [{a = 1, b = %s}]\nfrom t | join r (==a) | select {t.a, r.b}" % lit)
+        elif pos == 1:
+            out.append("from t | select {a, b} | append [{a = 1, b = %s}]" % lit)
+        elif pos == 2:
+            out.append("let r = [{a = 1, b = %s}, {a = 2, b = null}]\nfrom r | filter b != null | derive {c = b}" % lit)
+        else:
+            out.append("from t | join side:left [{a = 1, b = %s}] (==a)" % lit)
+    for _ in range(n):
+        cols = ["a", "b", "c", "d"][:rng.choice([1, 2, 3, 3, 4])]
+        typed = [rng.choice(kinds) for _ in cols] if rng.random() < 0.5 else None
+        rel = relation_literal(rng, cols, rng.choice([1, 1, 2, 3]), typed)
+        tail = rng.choice(_REL_TAILS)
+        if "c" not in cols:
+            tail = tail.replace("z = c", "z = a").replace("select {c}", "select {a}")
+        if "b" not in cols:
+            tail = tail.replace("{b, a}", "{a}").replace("{-b}", "{-a}")
+        out.append("from %s%s" % (rel, tail))
+    return out
+
+
+# ---------------------------------------------------------------------------------------------------------------
+# computes referenced by later transforms: chains of `derive`s whose columns are named again -- bare, aliased, or
+# inside an expression -- by aggregate tuples, group keys, sorts, filters, window bodies and joins.  The lowerer
+# re-uses the column id of an already lowered compute for a bare reference, so RQ transforms list ids of computes
+# that were declared for another purpose (Compute.is_aggregation / window / sort flags then belong to two users).
+_SRC_COLS = ["a", "b", "c"]
+_AGG_FNS = ["sum", "min", "max", "average", "count", "stddev", "any", "every", "concat_array"]
+_DERIVE_EXPRS = ["%s + 1", "%s * 2", "-%s", "%s ?? 0", "2", '"k"', "@2020-01-01", "null", "%s > 1", "(%s | math.abs)",
+                 "case [%s > 0 => 1, true => 0]", 's"f({%s})"', 'f"{%s}!"', "%s == null"]
+
+
+def compute_ref_program(rng):
+    derived = []
+    steps = []
+    for i in range(rng.choice([1, 2, 2, 3])):
+        name = "d%d" % i
+        e = rng.choice(_DERIVE_EXPRS)
+        if "%s" in e:
+            e = e % rng.choice(_SRC_COLS + derived + derived)
+        steps.append("derive %s = %s" % (name, e) if rng.random() < 0.6 else "derive {%s = %s}" % (name, e))
+        derived.append(name)
+    # something else that depends on a derived column before the aggregate
+    for _ in range(rng.choice([0, 0, 1, 2])):
+        d = rng.choice(derived)
+        steps.append(rng.choice(["filter %s != null" % d, "sort {%s}" % d, "sort {-%s, a}" % d, "filter %s > 2" % d,
+                                 "derive e%d = %s + a" % (len(steps), d), "take 10"]))
+    items = []
+    for d in rng.sample(derived, rng.randrange(0, len(derived) + 1)):
+        items.append(rng.choice([d, d, d, "this.%s" % d, "z%s = %s" % (d, d), "(%s)" % d]))
+    if rng.random() < 0.3:
+        items.append(rng.choice(_SRC_COLS))
+    for i in range(rng.choice([0, 1, 1, 2])):
+        arg = rng.choice(_SRC_COLS + derived + derived + [x.split(" ")[1] for x in steps if x.startswith("derive e")])
+        items.append("s%d = %s %s" % (i, rng.choice(_AGG_FNS), arg))
+    if not items or rng.random() < 0.2:
+        items.append("n = count this")
+    rng.shuffle(items)
+    agg = "aggregate {%s}" % ", ".join(items)
+    keys = rng.sample(_SRC_COLS + derived + derived, rng.choice([0, 0, 1, 1, 2]))
+    keys = list(dict.fromkeys(keys))
+    shape = rng.randrange(6)
+    if shape == 0 and keys:
+        steps.append("group {%s} (take 1)" % ", ".join(keys))
+    elif shape == 1:
+        steps.append("window rolling:2 (derive {w = sum %s})" % rng.choice(derived))
+        steps.append("group {%s} (%s)" % (", ".join(keys), agg) if keys else agg)
+    elif shape == 2 and keys:
+        steps.append("group {%s} (sort %s | derive {rk = row_number this})" % (", ".join(keys), rng.choice(derived)))
+    elif keys:
+        steps.append("group {%s} (%s)" % (", ".join(keys), agg))
+    else:
+        steps.append(agg)
+    # users of the aggregate's output
+    outs = [re.split(r"[ =]", it.replace("this.", "").strip("()"))[0] for it in items] + keys
+    for _ in range(rng.choice([0, 0, 1, 2])):
+        o = rng.choice(outs) if outs and shape not in (0, 2) else rng.choice(derived)
+        steps.append(rng.choice(["derive r = %s" % o, "filter %s != null" % o, "sort {%s}" % o, "select {%s}" % o, "take 5"]))
+    head = rng.choice(["from t", "from t", "from t", "from [{a = 1, b = 2, c = 3}]", "from t | select {a, b, c}"])
+    return head + " | " + " | ".join(steps)
+
+
+def compute_ref_programs(rng, n):
+    out = [
+        # an aggregate tuple names earlier computes bare / aliased / under `this.`, with and without other users
+        "from t | derive d0 = 2 | aggregate {d0}",
+        "from t | derive d0 = a + 1 | aggregate {d0, n = count this}",
+        "from t | derive d0 = 2 | derive d1 = a * d0 | aggregate {d0, s = sum d1}",
+        "from t | derive d0 = a + 1 | filter d0 > 2 | aggregate {d0, n = count this}",
+        "from t | derive d0 = a + 1 | sort d0 | aggregate {this.d0, m = max d0}",
+        "from t | derive {d0 = a + 1, d1 = d0 * 2} | group {b} (aggregate {d0, z = d1, s = sum d1})",
+        # group keys that are earlier computes, also named again inside the group's pipeline
+        "from t | derive d0 = a + 1 | group {d0} (aggregate {n = count this})",
+        "from t | derive d0 = a + 1 | derive d1 = d0 * 2 | group {d0, b} (aggregate {d0, s = sum d1}) | sort d0",
+        "from t | derive d0 = a > 1 | group {d0} (sort b | take 1)",
+        "from t | derive d0 = a + 1 | group {d0} (derive {rk = rank d0}) | filter rk == 1",
+        # the compute is itself an aggregation / window and is named again by a later aggregate
+        "from t | group {b} (aggregate {s = sum a}) | derive d0 = s * 2 | aggregate {d0, m = max s}",
+        "from t | derive d0 = sum a | aggregate {d0, n = count this}",
+        "from t | window rolling:2 (derive {w = sum a}) | derive d0 = w + 1 | group {b} (aggregate {d0, w, t = sum w})",
+        "from t | derive d0 = a + 1 | aggregate {d0} | derive d1 = d0 + 1 | aggregate {d1, d0}",
+    ]
+    return out + [compute_ref_program(rng) for _ in range(n)]
+
+
 _OPS = ["*", "//", "/", "%", "**", "+", "-", "==", "!=", ">", "<", ">=", "<=", "&&", "||", "??"]
-_LITS = ["1", "0", "42", "9007199254740993", "1234567890123456789", "2.5", "0.001", "1e10", "true", "false", "null", '"s"', '"a b"', "@2021-03-04", "@12:00", "3days", "1weeks", 'r"x\\y"']
+_LITS = ["1", "0", "42", "9007199254740993", "1234567890123456789", "2.5", "0.001", "1e10", "true", "false", "null", '"s"', '"a b"', "@2021-03-04", "@12:00", "3days", "1weeks", 'r"x\\y"',
+         "@2021-03-04T05:06:07", "@2021-03-04T05:06:07Z", "@12:00:01.5", "2months", "10microseconds", "r'q'", "0x10", "1_000"]
 _COLS = ["a", "b", "c", "t.a", "`my col`", "this.b"]
 
 
@@ -171,6 +332,14 @@ def _transform(rng):
 def random_program(rng):
     n = rng.choice([1, 2, 2, 3, 4])
     head = rng.choice(["from t", "from t", "from `my t`", "from db.t", "prql target:sql.%s\nfrom t" % rng.choice(["duckdb", "mssql", "generic"])])
-    if rng.random() < 0.15:
+    k = rng.random()
+    if k < 0.15:
         head = "let h = (from t | filter a > %s)\nfrom h" % rng.choice(_LITS[:6])
+    elif k < 0.3:
+        # a relation literal with the column names the transforms use: every transform below applies to it
+        head = "from " + relation_literal(rng, ["a", "b", "c"], rng.choice([1, 2]), None)
+    elif k < 0.45:
+        # a chain of computes referenced by an aggregate / group, followed by ordinary transforms
+        head = compute_ref_program(rng)
+        n = rng.choice([0, 1, 2])
     return head + "".join(" | " + _transform(rng) for _ in range(n))
